@@ -1,4 +1,5 @@
 """C07 -- text taken from the grammar reaches the shell verbatim and inert."""
+import re
 from vlib import ast as A, prov as P, types as TY, xducer as X
 from vlib import rules_emit as RE
 
@@ -20,12 +21,21 @@ ASSUMPTIONS = [
     "PowerShell also treats U+201C/U+201D/U+201E as double quotes: outside the checked alphabet, reported as an advisory",
 ]
 
-TEXT_ALLOW = {
-    ("bash::write_completion_script", "cmd"): "body of _<cmd>_cmd_<id>: the command text is shell code by design",
-    ("fish::write_completion_script", "cmd"): "body of _<cmd>_cmd_<id>: the command text is shell code by design",
-    ("zsh::write_completion_script", "cmd"): "body of _<cmd>_cmd_<id>: the command text is shell code by design",
-    ("pwsh::write_completion_script", "cmd"): "body of _<cmd>_cmd_<id>: the command text is shell code by design",
-}
+def _is_cmd_body(site, idx):
+    """the hole is, alone on its line, the whole body of the function `_<command>_cmd_<id>` that the same template defines (the
+    one place where grammar text is shell code by design) -- recognised by the template, not by what the Rust local is called"""
+    before = "".join(("\x00" if p[0] == "hole" else p[1]) for p in site.pieces[:idx])
+    after = "".join(("\x00" if p[0] == "hole" else p[1]) for p in site.pieces[idx + 1:])
+    head = before.rsplit("\n", 2)
+    if len(head) < 2 or head[-1].strip() != "":
+        return False
+    opener = head[-2].strip()
+    if not re.fullmatch(r"(function )?_\x00_cmd_\x00( \(\))?( \{)?", opener):
+        return False
+    return after.startswith("\n") and after[1:].lstrip().split("\n")[0].strip() in ("}", "end")
+
+
+TEXT_ALLOW = {}  # no exemption by (function, local name): the one exempt hole is recognised by its template (_is_cmd_body)
 
 
 def enc_rule(repo, res, rule="ENC", tier="quick"):
@@ -82,8 +92,8 @@ def sink_rule(repo, res, ty, rule="SINK"):
             loc = f"{fn.file}:{s.node['l']}"
             raw = sorted(set(enc.raw(fn, e, env)))
             if raw:
-                if (fn.qname, what) in TEXT_ALLOW:
-                    res.ok(rule, key, f"raw grammar text by design: {TEXT_ALLOW[(fn.qname, what)]}", loc)
+                if (fn.qname, what) in TEXT_ALLOW or _is_cmd_body(s, idx):
+                    res.ok(rule, key, "raw grammar text by design: body of _<cmd>_cmd_<id>: the command text is shell code", loc)
                 else:
                     res.bad(rule, key, f"grammar text reaches `{s.template.strip()[:50]}` without {mod}::make_string_constant: {raw[:3]}", loc)
                 continue
